@@ -949,7 +949,7 @@ def power_plan(ctx, h, rng, all_upto, samples, full_big=0):
 # ----------------------------------------------------------------------------------------------------------
 # segment level: the real storage.OpenTSDB / segmentController.create / open  (model: lean/Banyan/Model/C04Seg.lean)
 
-KNOWN_SEGMENT = "F72"  # used only if KNOWN_FINDINGS.txt lists `known: property=C04 id=F72 ...`
+KNOWN_SEGMENT = "F04s"  # used only if KNOWN_FINDINGS.txt lists `known: property=C04 id=F04s ...`
 SEG_DAY0 = (2024, 5, 1)
 
 
@@ -1075,7 +1075,7 @@ def segment_stream(ctx, R, tier):
             if tree_s not in seen:
                 seen[tree_s] = (c, mode, rec_s)
     # directed trees: what `open()` must cope with whatever protocol wrote the directory (older versions, the
-    # protocol before/after repair F72): a complete segment next to a half-born / torn one
+    # protocol before/after repair F04s): a complete segment next to a half-born / torn one
     base = "seg0/ seg0/metadata=1.2 seg0/shard-0/ seg0/shard-0/data=7"
     directed = [base + " " + v for v in (
         "seg1/", "seg1/ seg1/metadata=-", "seg1/ seg1/metadata=- seg1/shard-0/", "seg1/ seg1/metadata.tmp=1.3",
@@ -1185,6 +1185,170 @@ def segment_stream(ctx, R, tier):
     if dis and not bad:
         R.violation("correspondence", "segment level: model and implementation disagree: tree=%s impl=%s model=%s" % dis[0],
                     {"stream": "segment", "model_tree": dis[0][0]}, no_input=True)
+
+
+# ----------------------------------------------------------------------------------------------------------
+# trace-table stream: the real trace tsTable with one secondary index (sidx).  Oracle only (no Lean model of the
+# trace protocol): every prefix of the recorded system-call trace (kill -9, writes also torn in half) is
+# materialised and recovered by the real trace initTSTable.
+
+TRACE_HISTORIES = [["B1", "F"], ["B1", "F", "B2", "F"], ["B1", "B2", "F", "B3", "F"]]
+TRACE_HISTORIES_THOROUGH = [["B1", "F", "B2", "B3", "F", "B4", "F"]]
+
+
+def parse_trace_dump(s):
+    d = {}
+    for w in s.split(" "):
+        if "=" in w:
+            k, v = w.split("=", 1)
+            d.setdefault(k, v)
+    parts = []
+    for p_ in filter(None, d.get("parts", "").split(";")):
+        pid, kind, b = p_.split(":")
+        parts.append((int(pid, 16), kind, int(b.rstrip("!")), b.endswith("!")))
+    return {"epoch": d.get("epoch"), "parts": parts, "sidx": d.get("sidx", "-"),
+            "sidxdirs": sorted(int(x, 16) for x in d.get("sidxdirs", "").split(",") if x)}
+
+
+def trace_oracle(g, acked, cover):
+    if not g.startswith("OK "):
+        return "trace table: recovery does not open: " + g[:300]
+    body = g[3:]
+    cont = None
+    if " cont:" in body:
+        body, cont = body.split(" cont:", 1)
+    dump_s, tree_s = body.split(" tree=", 1)
+    d = parse_trace_dump(dump_s)
+    tree = [x for x in tree_s.split(",") if x]
+    got = []
+    for pid, kind, b, bad in d["parts"]:
+        if kind != "f":
+            return "trace table: recovered snapshot contains a memory part"
+        if bad:
+            return "trace table: part %x: metadata does not describe exactly one batch" % pid
+        got.append(b)
+    if len(set(got)) != len(got):
+        return "trace table: a batch is served by two parts: %s" % got
+    if set(got) != set(acked[:len(got)]):
+        return "trace table: recovered batches %s are not a prefix of the acknowledged batches %s" % (sorted(got), acked)
+    if not set(cover) <= set(got):
+        return "trace table: batches %s of the last published manifest are lost (recovered %s)" % (
+            sorted(set(cover) - set(got)), sorted(got))
+    core = sorted(pid for pid, kind, b, bad in d["parts"])
+    extra = [x for x in d["sidxdirs"] if x not in core]
+    started = None
+    if cont is not None and " started:" in cont:
+        cont, st = cont.split(" started:", 1)
+        started = None if st.startswith("PANIC") else parse_trace_dump(st)
+    if extra and not core and d["sidx"] == "-":
+        # no manifest loaded: the table comes back empty and the secondary index is not opened; index part
+        # directories of the rolled-back flush stay on disk until the index is created again (first write), which
+        # removes them.  Not served, not a violation; the continuation checks that they do disappear.
+        if started is not None and (started["sidxdirs"] or started["sidx"] != "0"):
+            return "trace table: index part directories of rolled-back parts survive the re-creation of the index: %s" % started["sidxdirs"]
+        extra = []
+        d["sidxdirs"] = []
+    if extra:
+        return "trace table: the secondary index keeps parts %s whose core part is not in the recovered snapshot %s" % (
+            ["%016x" % x for x in extra], ["%016x" % x for x in core])
+    if d["sidx"] not in ("-", str(len(d["sidxdirs"]))):
+        return "trace table: the secondary index serves %s parts, its directory holds %s" % (d["sidx"], d["sidxdirs"])
+    missing = [x for x in core if x not in d["sidxdirs"]]
+    if missing:
+        return "trace table: served core parts %s have no secondary-index part" % ["%016x" % x for x in missing]
+    if not core:
+        tree = [x for x in tree if not x.startswith("sidx/idx/")]
+    roots = sorted(set(x.split("/")[0] for x in tree))
+    want = set(["%016x" % x for x in core] + ["sidx"] + (["%s.snp" % ("0" * (16 - len(d["epoch"])) + d["epoch"])] if core else []))
+    left = [x for x in roots if x not in want]
+    if left:
+        return "trace table: leftovers after startup cleanup: %s" % left
+    if cont is not None:
+        if cont.startswith("PANIC"):
+            return "trace table: the recovered table is not usable: " + cont[:200]
+        c = parse_trace_dump(cont)
+        cb = sorted(b for pid, kind, b, bad in c["parts"])
+        ccore = sorted(pid for pid, kind, b, bad in c["parts"])
+        if cb != sorted(got + [99]) or c["sidxdirs"] != ccore:
+            return "trace table: after one more batch, a flush and a restart it serves %s (index parts %s), expected %s" % (
+                cb, c["sidxdirs"], sorted(got + [99]))
+    return None
+
+
+def trace_table_stream(ctx, R, tier):
+    hists = TRACE_HISTORIES + (TRACE_HISTORIES_THOROUGH if tier != "quick" else [])
+    nstates = 0
+    for hi, ops in enumerate(hists):
+        root = os.path.join(ctx.scratch, "tr%d" % hi)
+        os.makedirs(root)
+        tr = root + ".trace"
+        p = subprocess.run(["strace", "-f", "-y", "-s", "1000000", "-xx", "-o", tr, "-e", "trace=" + STRACE_CALLS,
+                            ctx.go, "trrun", root, "%x" % FRESH] + ops, stdout=subprocess.PIPE, stderr=subprocess.PIPE,
+                           text=True, env=vlib.goenv(), timeout=300)
+        out = [l for l in p.stdout.split("\n") if l and not l.startswith("{")]
+        ev = parse_strace(tr, root)
+        os.unlink(tr)
+        shutil.rmtree(root, ignore_errors=True)
+        if p.returncode != 0 or len(out) != len(ops) + 1:
+            R.oblige("trace-table stream: history %s runs" % " ".join(ops), False, (p.stderr or "")[-300:])
+            continue
+        cov = []
+        for l in out[1:]:
+            w = l.split(" ", 2)
+            d = parse_trace_dump(w[2]) if len(w) > 2 else {"parts": []}
+            cov.append(sorted(b for pid, kind, b, bad in d["parts"] if kind == "f"))
+        events = []
+        for si, (mk, es) in enumerate([x for x in split_segments(ev) if x[0] != "?"]):
+            for e in es:
+                if e[0] not in ("mark", "other"):
+                    events.append((si, e))
+        acked_of = lambda seg: [int(o[1:]) for o in ops[:seg] if o[0] == "B"]  # noqa
+        sim = SimFS()
+        published = []
+        states = [({}, {}, 0, [], [])]
+        for k, (seg, e) in enumerate(events):
+            try:
+                if e[0] == "write" and len(e[2]) > 1:
+                    s2 = SimFS()
+                    s2.ns, s2.data, s2.next = dict(sim.ns), dict(sim.data), sim.next
+                    s2.apply(e, torn=len(e[2]) // 2)
+                    states.append(s2.snapshot() + (k + 1, acked_of(seg), list(published)))
+                sim.apply(e)
+            except KeyError:
+                continue    # a file opened before the first mark
+            if e[0] == "rename" and e[2].endswith(".snp"):
+                published = cov[seg]
+            if e[0] in ("fsync", "fsyncdir", "close"):
+                continue
+            states.append(sim.snapshot() + (k + 1, acked_of(seg), list(published)))
+        seen, todo, glines = set(), [], []
+        for ns, data, cut, acked, cover in states:
+            key = (tuple(sorted((p_, v if v == "D" else bytes(data[v])) for p_, v in ns.items())), tuple(acked), tuple(cover))
+            R.count("trace-table-states")
+            if key in seen or not ns:
+                continue
+            seen.add(key)
+            d = os.path.join(ctx.scratch, "trs%d_%d" % (hi, len(todo)))
+            materialise(d, ns, data)
+            todo.append((d, ns, data, cut, acked, cover))
+            glines.append("trrec %s%s" % (d, " cont" if len(todo) % 5 == 0 else ""))
+        for (d, ns, data, cut, acked, cover), g in zip(todo, ctx.go_lines(glines)):
+            shutil.rmtree(d, ignore_errors=True)
+            R.evaluations += 1
+            nstates += 1
+            R.nontrivial.add("trace %s cut %d" % (" ".join(ops), cut))
+            v = trace_oracle(g, acked, cover)
+            if v is not None:
+                cls = re.sub(r"[^a-z ]", "", v.lower())[:48].strip()
+                R.count("oracle:" + cls)
+                same = sum(1 for x in R.violations if x["kind"] == "oracle" and
+                           re.sub(r"[^a-z ]", "", x["detail"].lower())[:48].strip() == cls)
+                if same < 2:
+                    files = {q: (None if val == "D" else bytes(data[val]).hex()) for q, val in ns.items()}
+                    R.violation("oracle", v, {"stream": "trace-table", "history": ops, "mode": "kill", "cut": cut,
+                                              "acked": acked, "must_cover": cover, "tree": files, "impl_output": g,
+                                              "how": "materialise `tree` below <d>, then `echo trrec <d> | drv_c04` (real trace initTSTable)"})
+    R.count("trace-table-recoveries", nstates)
 
 
 # ----------------------------------------------------------------------------------------------------------
@@ -1520,7 +1684,6 @@ def main(tier):
         vlib.static_stage(_Spec, R)
         ctx = Ctx(tier, R)
         ctx.disagreements = []
-        segment_stream(ctx, R, tier)
         nrand, maxb, all_upto, samples, nmut, full_big = {"quick": (2, 4, 3, 5, 10, 0),
                                                             "thorough": (36, 8, 6, 32, 150, 2)}[tier]
         hists = [list(x) for x in DIRECTED]
@@ -1563,8 +1726,21 @@ def main(tier):
             eval_states(c, h, power_plan(c, h, r2, all_upto, samples, full_big), "p", cont_every=40)
             eval_mutated(c, h, r2, nmut)
             shutil.rmtree(c.scratch, ignore_errors=True)
-        with ThreadPoolExecutor(max_workers=8) as ex:
+        def extra_stream(fn, name):
+            c = Ctx.__new__(Ctx)
+            c.tier, c.R, c.go, c.lean, c.scratch = tier, R, ctx.go, ctx.lean, os.path.join(ctx.scratch, name)
+            c.n, c.disagreements = 0, ctx.disagreements
+            os.makedirs(c.scratch)
+            try:
+                fn(c, R, tier)
+            finally:
+                shutil.rmtree(c.scratch, ignore_errors=True)
+        with ThreadPoolExecutor(max_workers=10) as ex:
+            futs = [ex.submit(extra_stream, segment_stream, "segstream"),
+                    ex.submit(extra_stream, trace_table_stream, "tracestream")]
             list(ex.map(one, [(i, o, s) for i, (o, s) in enumerate(zip(hists, seeds))]))
+            for f in futs:
+                f.result()
         R.oblige("trace tie: syscall trace = model step list on %d histories" % len(hists), not tie_fail,
                  "; ".join("%s: %s" % (" ".join(o), w) for o, w in tie_fail[:3]))
         dis = ctx.disagreements
